@@ -11,12 +11,20 @@ open Gen.LockUsers
     the guard `if dry_run { None }` skips the lock) -/
 theorem lockers_exactly :
     (table.filter (·.locks)).map (·.cmd) = [.search, .rename, .plan, .testLock] ∧
-    (table.filter (·.unlessDryRun)).map (·.cmd) = [.search, .plan] := by decide
+    (table.filter (·.unlessDryRun)).map (·.cmd) = [.search, .rename, .plan] := by decide
 
 theorem C12_witness_unlocked_apply : locks .apply = false := by decide
 theorem C12_witness_unlocked_undo : locks .undo = false := by decide
 theorem C12_witness_unlocked_redo : locks .redo = false := by decide
 theorem C12_witness_unlocked_replace : locks .replace = false := by decide
+
+/-- today's source never removes an unparsable lock file (`malformed_blocks`) and creates its lock file
+    empty before writing it (`create_new` … `write_all`) -/
+theorem C12_witness_malformed_in_source : abandonPolicy = .none ∧ publishByLink = false := by decide
+
+/-- today's Drop (and `release_held_locks`) do not look at the content of the file they remove
+    (`drop_removes_foreign`) -/
+theorem C12_witness_drop_unchecked_in_source : dropChecksContent = false := by decide
 
 /-- no command calls the content-checked `release()`: what runs at the end of a command is `Drop`, the
     unconditional unlink modelled by `Lock.step` at `dropUnlink` (see `C12_witness_drop_removes_foreign`) -/
